@@ -315,13 +315,20 @@ class WildGen:
         same = S.T(name, ns)
         if op in ('()', '[]'):
             return S.Op(op, self.ret() if r.random() < 0.5 else self.type(), (S.Arg(self.type(), self.ident()),))
+        this = self.in_class and r.random() < 0.3       # the class itself, spelled This (replaced in every instantiation)
         if op in '+-' and r.random() < 0.3:
-            return S.Op(op, same, ())
+            return S.Op(op, S.T('This') if this else same, ())
+        if this:
+            return S.Op(op, S.T('This'), (S.Arg(S.T('This', (), (), True, '&'), self.ident()),))
         return S.Op(op, same, (S.Arg(S.T(name, ns, (), True, '&'), self.ident()),))
 
     def klass(self):
         r = self.r
         name = self.ident(True)
+        values_like = False
+        if self.f['special_names'] and not getattr(self, '_values_used', False) and r.random() < 0.04:
+            # a class that merely shares its name with gtsam::Values (whose insert is bound in a special way)
+            name, values_like, self._values_used = 'Values', True, True
         tmpl = self.template() if (self.f['templates'] and r.random() < self.f.get('class_template_p', 0.3)) else None
         virt = r.random() < 0.3
         base = None
@@ -392,6 +399,8 @@ class WildGen:
             elif k == 'enum':
                 members.append(self.enum(('class', self.ns_path, name)))
             self.scope_params = class_params
+        if values_like:
+            members.append(S.Method('insert', S.VOID, (S.Arg(S.T('size_t'), 'j'), S.Arg(self.type(), self.ident())), False, None))
         if r.random() < self.f['serialize_p'] and not any(m.k == 'Method' and m.name in ('serialize', 'serializable')
                                                          for m in members):
             members.insert(r.randint(0, len(members)),
